@@ -2,6 +2,7 @@ import Wasp.Model.Broker
 import Wasp.Properties.C14
 import Wasp.Properties.C15
 import Wasp.Generated.Facts
+import Wasp.Proofs.BrokerC
 /-!
 # C02 — an acknowledged publish is never lost before reaching connected subscribers
 
@@ -22,11 +23,49 @@ keeps everything the writer can still reference) → writer job → `send`.
 * `C02_log_get`: the log model returns the appended message at every offset that was not truncated, and
   truncation never reaches an offset the writer still references (`C15_trunc_margin`, `C02_writer_queue_margin`).
 -/
+namespace Wasp.Broker.AgentC
+open Wasp.Broker Wasp.Dist Wasp.Topic
+
+theorem setNode_peer (w : World) (i : Nat) (n : Node) (hp : n.peer = (w.node i).peer) (j : Nat) :
+    ((w.setNode i n).node j).peer = (w.node j).peer := by
+  by_cases hj : j = i
+  · subst hj
+    by_cases hi : j < w.nodes.length
+    · rw [node_setNode_self _ _ _ hi, hp]
+    · rw [setNode_ge _ _ _ (by omega)]
+  · rw [node_setNode_ne _ _ _ _ hj]
+
+theorem broadcast_peer (w : World) (i : Nat) (ev : Event) (j : Nat) :
+    ((w.broadcast i ev).node j).peer = (w.node j).peer := by
+  simp only [World.broadcast]
+  exact setNode_peer w i _ (by rfl) j
+
+theorem afterRetain_frame (w : World) (i : Nat) (p : Pub) :
+    (afterRetain w i p).out = w.out ∧ (afterRetain w i p).nodes.length = w.nodes.length ∧
+    ∀ j, ((afterRetain w i p).node j).peer = (w.node j).peer := by
+  unfold afterRetain
+  split
+  · simp only [World.tick]
+    refine ⟨rfl, by simp [World.broadcast], fun j => ?_⟩
+    rw [broadcast_peer, setNode_peer _ _ _ (by rfl)]
+    rfl
+  · exact ⟨rfl, rfl, fun _ => rfl⟩
+
+theorem afterRetain_peersDistinct (w : World) (i : Nat) (p : Pub) (hd : PeersDistinct w) :
+    PeersDistinct (afterRetain w i p) := by
+  obtain ⟨_, hl, hp⟩ := afterRetain_frame w i p
+  intro a b ha hb hab
+  rw [hl] at ha hb
+  rw [hp, hp] at hab
+  exact hd a b ha hb hab
+
+end Wasp.Broker.AgentC
+
 namespace Wasp.Broker
-open Wasp.Dist Wasp.Topic Wasp.Generated
+open Wasp.Dist Wasp.Topic Wasp.Generated Wasp.Broker.AgentC
 
 theorem C02_offset_zero : Facts.writerLogJobIsPublishNil = true := by
-  sorry
+  rfl
 
 theorem C02_acked_implies_stored (w : World) (i : Nat) (hi : i < w.nodes.length) (hd : PeersDistinct w)
     (sid : String) (s : Sess) (hs : (w.node i).sess sid = some s)
@@ -37,13 +76,37 @@ theorem C02_acked_implies_stored (w : World) (i : Nat) (hi : i < w.nodes.length)
     let w₁ := afterRetain w i ⟨prefixMountPoint s.mount topic, payload, 1, retain, dup⟩
     ∀ peer ∈ destinations w₁ i p, ∃ j, j < w.nodes.length ∧ (w₁.node j).peer = peer ∧
       ((w.process i sid (.publish topic payload 1 retain dup mid)).1.node j).log = (w₁.node j).log ++ [p] := by
-  sorry
+  intro p w₁
+  have hproc : (w.process i sid (.publish topic payload 1 retain dup mid)).1 =
+      w.publishJob i ⟨prefixMountPoint s.mount topic, payload, 1, retain, dup⟩ (fun w => w.emit s.conn (.puback mid)) := by
+    simp [World.process, hs]
+  rw [hproc, C05_job] at hack ⊢
+  obtain ⟨hout, hlen, _⟩ := afterRetain_frame w i ⟨prefixMountPoint s.mount topic, payload, 1, retain, dup⟩
+  have hd₁ : PeersDistinct w₁ := afterRetain_peersDistinct w i _ hd
+  have hi₁ : i < w₁.nodes.length := by rw [hlen]; exact hi
+  change (s.conn, Pkt.puback mid) ∈ (if (w₁.distribute i p).2 = true then (w₁.distribute i p).1.emit s.conn (.puback mid) else (w₁.distribute i p).1).out at hack
+  change ∀ peer ∈ destinations w₁ i p, ∃ j, j < w.nodes.length ∧ (w₁.node j).peer = peer ∧
+    ((if (w₁.distribute i p).2 = true then (w₁.distribute i p).1.emit s.conn (.puback mid) else (w₁.distribute i p).1).node j).log = (w₁.node j).log ++ [p]
+  by_cases hok : (w₁.distribute i p).2 = true
+  · simp only [hok, if_true, emit_node]
+    intro peer hpeer
+    obtain ⟨j, hj, hjp, hr, ha⟩ := (C14_result w₁ i p hd₁ hi₁).1 hok peer hpeer
+    refine ⟨j, by rw [← hlen]; exact hj, hjp, ?_⟩
+    rw [C14_dest_log w₁ i p hd₁ hi₁ j hj, if_pos ⟨by rw [hjp]; exact hpeer, hr, ha⟩]
+  · exfalso
+    simp only [hok] at hack
+    obtain ⟨l, hl, hpub⟩ := distribute_pubExt w₁ i p
+    rw [if_neg (by simp), hl, hout] at hack
+    rcases List.mem_append.1 hack with h | h
+    · exact hnew h
+    · have := hpub _ h
+      simp [isPub] at this
 
 /-- QoS 0 recipients: one PUBLISH each, topic trimmed to what the publisher used, payload intact -/
 theorem C02_send_qos0 (w : World) (i : Nat) (hi : i < w.nodes.length) (sid : String) (s : Sess)
     (hs : (w.node i).sess sid = some s) (p : Pub) :
     (w.send i [(sid, 0)] p).out = w.out ++ [(s.conn, .publish (trimMountPoint s.mount p.topic) p.payload 0 p.retain p.dup 0)] := by
-  sorry
+  simp [World.send, hs]
 
 /-- QoS 1 recipient: written with the identifier the pool hands out, provided that identifier is not
     already in flight for this session -/
@@ -53,12 +116,27 @@ theorem C02_send_one (w : World) (i : Nat) (hi : i < w.nodes.length) (sid : Stri
     (hfresh : Ack.msgFind (Ack.hashKey sid (IdPool.get (w.node i).pool).2) (w.node i).acks.msgs = none) :
     (w.send i [(sid, 1)] p).out =
       w.out ++ [(s.conn, .publish (trimMountPoint s.mount p.topic) p.payload 1 p.retain p.dup (IdPool.get (w.node i).pool).2)] := by
-  sorry
+  have hle : ¬ (IdPool.get (w.node i).pool).2 ≤ 0 := by omega
+  have hne : (IdPool.get (w.node i).pool).2 ≠ 0 := by omega
+  simp only [World.send, hs]
+  simp only [show ((1:Int) = 0) = False from by simp, if_false, true_or, if_true, hle]
+  generalize hw2 : w.setNode i _ = w2
+  have hn2 : w2.node i = { w.node i with pool := (IdPool.get (w.node i).pool).1 } := by
+    rw [← hw2, node_setNode_self _ _ _ hi]
+  have hi2 : i < w2.nodes.length := by rw [← hw2]; simpa using hi
+  have hA := armAndSend_out1 w2 i hi2 sid (trimMountPoint s.mount p.topic) p.payload p.retain p.dup
+    (IdPool.get (w.node i).pool).2 s (by rw [hn2]; exact hs) hne (by rw [hn2]; exact hfresh)
+  have hout : w2.out = w.out := by rw [← hw2]; rfl
+  unfold World.sendArmed
+  simp only
+  split
+  · rw [poolPut_out, hA.out, hout]
+  · rw [hA.out, hout]
 
 /-- a recipient that is not registered (session ended) is skipped and does not stop the others -/
 theorem C02_send_skips_gone (w : World) (i : Nat) (sid : String) (q : Int) (rest : List (String × Int)) (p : Pub)
     (hs : (w.node i).sess sid = none) :
     w.send i ((sid, q) :: rest) p = w.send i rest p := by
-  sorry
+  simp [World.send, hs]
 
 end Wasp.Broker
